@@ -161,6 +161,63 @@ theorem blocking_suppressed_flag (q : Q) (ins outs : List Buf) (devLen : Nat)
   · simp [publish, f.eventIdx, he]
   · simp [publish, f.usedFlags, hf]
 
+/-! ### The caller's own interrupt-suppression word is left alone
+
+`avail.flags` (the driver's request "do not interrupt me") is written by `set_dev_notify` only:
+submissions, polls and the blocking helper — whichever completion ends its wait — leave it as the
+caller set it.  (Seeded change C05-8 had the blocking helper mask and unmask interrupts itself.) -/
+
+theorem add_keeps_availFlags (q : Q) (ins outs : List Buf) : (q.add ins outs).1.availFlags = q.availFlags := by
+  unfold Q.add
+  split
+  · rfl
+  · split
+    · rfl
+    · split
+      · rfl
+      · rename_i q1 c evs hb
+        have f : Frame q q1 := frame_buildChain _ _ _ _ hb
+        simp [publish, f.availFlags]
+
+theorem pop_keeps_availFlags (q : Q) (tok : Nat) (ins outs : List Buf) :
+    (q.popUsed tok ins outs).1.availFlags = q.availFlags := by
+  unfold Q.popUsed
+  split
+  · rfl
+  · split
+    · rfl
+    · split
+      · rfl
+      · rename_i q1 evs hr
+        have f : Frame q q1 := frame_recycle _ _ _ _ _ hr
+        rw [(finishPop_spec q1 _).2.2.2.2.2.2.2.2.2.2.2.2.2.2.2.2.2, f.availFlags]
+
+theorem devUsed_keeps_availFlags (q : Q) (id len : Nat) : (q.devUsed id len).availFlags = q.availFlags := rfl
+
+theorem blocking_keeps_suppression_word (q : Q) (ins outs : List Buf) (devLen : Nat) :
+    (q.addNotifyWaitPop ins outs devLen).1.availFlags = q.availFlags := by
+  unfold Q.addNotifyWaitPop
+  have ha := add_keeps_availFlags q ins outs
+  rcases hadd : q.add ins outs with ⟨q1, r, evs⟩
+  rw [hadd] at ha
+  cases r <;> simp only [] <;> try exact ha
+  rename_i t
+  rw [pop_keeps_availFlags]
+  exact ha
+
+theorem blocking_foreign_keeps_suppression_word (q : Q) (ins outs : List Buf) (f : Option (Nat × Nat)) :
+    (q.addNotifyWaitPopForeign ins outs f).1.availFlags = q.availFlags := by
+  unfold Q.addNotifyWaitPopForeign
+  have ha := add_keeps_availFlags q ins outs
+  rcases hadd : q.add ins outs with ⟨q1, r, evs⟩
+  rw [hadd] at ha
+  cases r <;> simp only [] <;> try exact ha
+  rename_i t
+  rw [pop_keeps_availFlags]
+  cases f with
+  | none => exact ha
+  | some p => exact ha
+
 /-! ### Non-vacuity -/
 
 /-- the hypotheses of `notify_sound` are met across the wrap: event 65534, entries 65534 → 2 -/
